@@ -171,10 +171,14 @@ def drive(reqs):
     """Send requests (dicts) to the Lean driver, one per line; return parsed replies."""
     if not reqs:
         return []
-    if not DRIVER.exists():
+    cmd = [str(DRIVER)]
+    if os.environ.get("PYTTB_DRIVER_CMD"):
+        # development only: e.g. "lake env lean --run MainC16.lean" (run from lean/)
+        cmd = os.environ["PYTTB_DRIVER_CMD"].split()
+    elif not DRIVER.exists():
         raise DriverError(f"driver not built: {DRIVER}")
     text = "\n".join(json.dumps(r, separators=(",", ":")) for r in reqs) + "\n"
-    p = subprocess.run([str(DRIVER)], input=text, capture_output=True, text=True, timeout=3600)
+    p = subprocess.run(cmd, input=text, capture_output=True, text=True, timeout=3600, cwd=str(LEAN))
     if p.returncode != 0:
         raise DriverError(f"driver exit {p.returncode}: {p.stderr[:500]}")
     lines = [ln for ln in p.stdout.split("\n") if ln.strip()]
